@@ -583,9 +583,9 @@ def run_scope(sh, lab, deco, scopes, exit_kind):
 
 
 def run_shared_output_scopes(sh, lab):
-    """One Output object serving as standard AND error output of an I/O object (set-style scopes only: what an
-    increment means for an object that is counted twice is not stated)."""
-    alphabet = [(k, n) for k in ("io.indent", "out.indent") for n in SIZES]
+    """One Output object serving as standard AND error output of an I/O object (stderr merged into stdout): set-style
+    and increment scopes; an increment of n raises the indentation in force by n, not by n per role the object plays."""
+    alphabet = [(k, n) for k in ("io.indent", "out.indent", "io.increment", "out.increment") for n in SIZES]
     for d in (1, 2):
         for scopes in itertools.product(alphabet, repeat=d):
             for ex in ("normal", "raise-last", "interrupt"):
@@ -606,18 +606,22 @@ def run_shared_output_scopes(sh, lab):
                         return False
                     return True
 
+                levels = [0]
+                for kind_, n_ in scopes:
+                    levels.append(levels[-1] + n_ if kind_.endswith("increment") else n_)
+
                 def enter(k):
                     if k == len(scopes):
-                        probe_shared(scopes[-1][1], "inside")
+                        probe_shared(levels[-1], "inside")
                         if ex == "raise-last":
                             raise Boom()
                         if ex == "interrupt":
                             raise KeyboardInterrupt()
                         return
                     kind, n = scopes[k]
-                    before = scopes[k - 1][1] if k else 0
+                    before = levels[k]
                     try:
-                        with (io.indent(n) if kind == "io.indent" else out.indent(n)):
+                        with {"io.indent": io.indent, "out.indent": out.indent, "io.increment": io.increment_indent, "out.increment": out.increment_indent}[kind](n):
                             enter(k + 1)
                     finally:
                         probe_shared(before, "after leaving scope %d (%s, exit %s)" % (k, kind, ex))
